@@ -94,6 +94,11 @@ func visibleCallee(obj *types.Func) bool {
 			return name == "Lock" || name == "RLock" || name == "TryLock" || name == "TryRLock"
 		case "WaitGroup":
 			return name == "Done" || name == "Wait"
+		case "Map":
+			switch name {
+			case "Load", "Store", "LoadOrStore", "LoadAndDelete", "Delete", "Range":
+				return true
+			}
 		}
 	case "go.uber.org/atomic":
 		if recvName == "" {
